@@ -85,6 +85,22 @@ Theorem C12_obtain : forall c g sched, valid_cfg c = true -> NoDup (map cid g) -
 Proof. exact obtain_matrix. Qed.
 Print Assumptions C12_obtain.
 
+(* sessions (the same path counted repeatedly and rewritten in between): the i-th result is [obtain] of the
+   parameters and BAM content of the i-th call - a function of the CURRENT content only - and, under the hypotheses
+   for that call, it is the declarative matrix of that content whatever was counted before *)
+Theorem C12_history_stateless : forall h i c g sched, nth_error h i = Some (c, g, sched) ->
+  nth_error (run_history h) i = Some (obtain c g sched).
+Proof. exact history_stateless. Qed.
+Print Assumptions C12_history_stateless.
+
+Theorem C12_history_matrix : forall h i c g sched, nth_error h i = Some (c, g, sched) ->
+  valid_cfg c = true -> NoDup (map cid g) -> regular_genome c g ->
+  Permutation (seq 0 (length (all_jobs c g))) sched ->
+  exists d, nth_error (run_history h) i = Some (Ok d) /\ (forall q s, look d q s = decl c g q s)
+            /\ total d = decl_total c g /\ NoDup (keys d) /\ positive d.
+Proof. exact history_matrix. Qed.
+Print Assumptions C12_history_matrix.
+
 (* "passing" is what the statement says: read 1, not QC-failed, not duplicate (when deduplicating), not marked as
    non-uniquely mappable (unless ignored), mapping quality at least the threshold *)
 Theorem C12_filter_spec : forall c r, passes c r = true <->
